@@ -5,7 +5,7 @@ INVARIANT BufferInv
 CONSTANTS
   WB = 2
   NR = 2
-  MaxWords = 6
-  MaxCap = 9
+  MaxWords = 5
+  MaxCap = 8
   FixOnes = FALSE
 CHECK_DEADLOCK FALSE
